@@ -141,7 +141,11 @@ def gen_sched(g):
 
 def weird_name(rng):
     parts = ["a", "b c", "x#y", "100%", "q?r", "p+p", "é", "中文", "ü_ö", "λ", "t~", "[z]", "&amp",
-             "semi;colon", "eq=", "at@", "comma,", "quote'", "Ж"]
+             "semi;colon", "eq=", "at@", "comma,", "quote'", "Ж",
+             # names that Unicode normalisation (NFC/NFD/NFKC) or case folding would rewrite:
+             # decomposed accents, Angstrom/Ohm/Kelvin signs, ligature, full-width, dotted I, jamo
+             "cafe\u0301", "\u212b", "\u2126m", "\u212a", "\ufb01", "\uff21", "\u0130", "\u1112\u1161\u11ab",
+             "\U0001F600", "A\u030a"]
     return "".join(rng.choice(parts) for _ in range(rng.randint(1, 3)))
 
 
